@@ -8,7 +8,7 @@ import common as C
 PROP = "C09"
 LEAN_MODULES = ["AcryoVerif.Props.C09"]
 LEAN_SUPPORT = ["AcryoVerif.Model.Split"]
-KERNELS = ["splitDraws", "splitterComplementary", "splitLoopLoader", "splitLoopGroup", "splitSqueeze"]
+KERNELS = ["splitDraws", "splitterComplementary", "splitLoopLoader", "splitLoopGroup", "splitSqueeze", "averageIsPlainMean"]
 TRUSTED = [
     "Lean 4.33 kernel; axioms propext / Classical.choice / Quot.sound only",
     "structure of random_splitter / average_split read from the AST (specs.py patterns); number of "
@@ -132,7 +132,12 @@ def run_case(inp):
     def V(clause, desc):
         viols.append({"clause": clause, "desc": desc, "input": dict(inp)})
 
-    with dask.config.set(scheduler="synchronous"):
+    # "array.chunk-size": a small value makes the ("auto", ...) rechunking of the stack produce several
+    # blocks of unequal length also for small stacks (the default 128 MiB needs thousands of molecules)
+    cfg = {"scheduler": "synchronous"}
+    if inp.get("chunk_size"):
+        cfg["array.chunk-size"] = inp["chunk_size"]
+    with dask.config.set(cfg):
         loader, tomos, mol_pos, mol_id = _scenario(inp)
         n, box = inp["n"], inp["box"]
         c = box // 2
@@ -221,6 +226,17 @@ def oracle(rng, thorough, deep=False, hints=None):
                           chunks=[None, (8, 8, 8), (23, 12, 5)][it % 3], seed=int(rng.integers(0, 10 ** 6)),
                           n_sets=[1, 3] if it % 3 == 0 else [1, 2], split_seeds=[0, int(rng.integers(1, 50))],
                           group_split=bool(it % 2)))
+    # the stack split into several dask blocks of unequal length ("auto" chunks under a small chunk-size)
+    for it in range(6 if big else 3):
+        kind = "single" if it % 2 == 0 else "batch"
+        ntomo = 1 if kind == "single" else 2
+        box = 3
+        n = [7, 11, 10, 5, 12, 9][it]
+        n = min(n, 6 * ntomo + (6 if kind == "single" else 0))
+        # one 3x3x3 float32 image is 108 bytes: blocks of 2 to 4 images
+        cases.append(dict(kind=kind, ntomo=ntomo, n=min(n, 18 if kind == "single" else 12), box=box, interleave=bool(it % 4 == 1),
+                          chunks=None, seed=int(rng.integers(0, 10 ** 6)), n_sets=[1], split_seeds=[0],
+                          group_split=False, chunk_size=["300B", "450B", "250B"][it % 3]))
     viols, stats = [], {"by_kind": {}, "odd_n": 0, "samples": [{"oracle_case": c} for c in cases[:2]]}
     for c in cases:
         stats["by_kind"][c["kind"]] = stats["by_kind"].get(c["kind"], 0) + 1
